@@ -193,6 +193,10 @@ class Lin:
                     and k[1][1].split("::")[-1] in ("get_index_of", "get_full", "first", "last", "get_index"):
                 # a look-up that found something: the container is not empty
                 out.append(lin_add(const(1), self.len_of(self.expand(k[1][2][0])), -1))
+            elif k[0] == "call" and len(k) > 2 and k[2] and k[1].split("::")[-1] == "is_empty" and c[0] == "eq" and c[1] in (0, 1):
+                # x.is_empty() decided on the path (any container): len(x) >= 1 / len(x) <= 0
+                ln_ = self.len_of(self.expand(k[2][0]))
+                out.append(lin_add(const(1), ln_, -1) if c[1] == 0 else ln_)
             elif k[0] in ("call", "field", "init", "arg", "len", "bin", "cast", "index") :
                 la = self.of_term(k)
                 if c[0] == "eq" and isinstance(c[1], int):
